@@ -2,4 +2,7 @@
 
 package all
 
-import _ "verif/harness/internal/props/c03"
+import (
+	_ "verif/harness/internal/props/c03"
+	_ "verif/harness/internal/props/c03/proxy"
+)
